@@ -658,7 +658,6 @@ func pidOf(t *pt.Table, gp int) string {
 // PidOf is exported for oracles.
 func PidOf(t *pt.Table, gp int) string { return pidOf(t, gp) }
 
-
 // Independent re-implementations of the table's own look-up helpers: the monitors must not judge the engine with
 // the engine's own (possibly changed) code.
 
